@@ -10,6 +10,7 @@ from .values import (SV, CV, XV, Opaque, EngineError, to_z, truth_z, ite, arith,
                      fresh, B, I, R, coerce, is_sym, ssqrt, sexp, slog10, ssin, scos, pi, spow, fresh_id, _flag_z,
                      F_arctan2)
 from .interp import Native, Namespace, PyRaise, CannotMerge, FuncVal
+from . import tabletheory
 from .arrays import (Arr, Series, Table, Mat, Space, MultiArr, elementwise, any_, all_, is_scalar, scalar_ite, scalar_isnan,
                      map_generic, subst, _mask_and, _is_boolish, FilteredTable, Cols, _key, _mask_eq)
 
@@ -157,6 +158,28 @@ def s_deg2rad(it, x):
 
 def s_rad2deg(it, x):
     return arith("/", arith("*", x, 180), pi())
+
+
+def _xv1(f, x):
+    """a real function applied to a value with NaN flag: NaN propagates"""
+    if isinstance(x, XV):
+        return XV(f(x.v), x.nan)
+    return f(x)
+
+
+def _uf1(name):
+    f = z3.Function(name, R, R)
+
+    def g(it, x):
+        if isinstance(x, XV):
+            return XV(SV(f(coerce(to_z(x.v), R))), x.nan)
+        if not is_sym(x):
+            return getattr(math, name[2:])(x)
+        return SV(f(coerce(to_z(x), R)))
+    return g
+
+
+s_arcsin, s_arctan, s_arccos, s_tan = _uf1("u_asin"), _uf1("u_atan"), _uf1("u_acos"), _uf1("u_tan")
 
 
 def s_angle(it, x, deg=False):
@@ -314,9 +337,11 @@ def make_numpy(it):
         "conjugate": nat(_ew(s_conj), name="conjugate"),
         "exp": nat(_ew(s_exp), name="exp"), "sign": nat(_ew(s_sign), name="sign"),
         "log10": nat(_ew(lambda it, x: slog10(x) if is_sym(x) else math.log10(x)), name="log10"),
-        "sin": nat(_ew(lambda it, x: ssin(x) if is_sym(x) else math.sin(x)), name="sin"),
-        "cos": nat(_ew(lambda it, x: scos(x) if is_sym(x) else math.cos(x)), name="cos"),
+        "sin": nat(_ew(lambda it, x: _xv1(ssin, x) if is_sym(x) else math.sin(x)), name="sin"),
+        "cos": nat(_ew(lambda it, x: _xv1(scos, x) if is_sym(x) else math.cos(x)), name="cos"),
         "deg2rad": nat(_ew(s_deg2rad), name="deg2rad"), "rad2deg": nat(_ew(s_rad2deg), name="rad2deg"),
+        "arcsin": nat(_ew(s_arcsin), name="arcsin"), "arctan": nat(_ew(s_arctan), name="arctan"),
+        "arccos": nat(_ew(s_arccos), name="arccos"), "tan": nat(_ew(s_tan), name="tan"),
         "radians": nat(_ew(s_deg2rad), name="radians"), "degrees": nat(_ew(s_rad2deg), name="degrees"),
         "angle": nat(lambda it, x, deg=False: elementwise(it, lambda e: s_angle(it, e, deg), x), name="angle"),
         "logical_and": nat(_ew(s_logical_and), name="logical_and"), "logical_or": nat(_ew(s_logical_or), name="logical_or"),
@@ -343,6 +368,7 @@ def make_numpy(it):
         "amax": nat(lambda it, x, axis=None, **k: _reduce2d(it, x, axis, s_max, "max"), name="amax"),
         "isin": nat(np_isin, name="isin"), "in1d": nat(np_isin, name="in1d"),
         "nonzero": nat(np_nonzero, name="nonzero"),
+        "flatnonzero": nat(lambda it, x: Arr(_arr(x).space, SV(_arr(x).space.i), _mask_and(_arr(x).mask, truth_z(_arr(x).e))), name="flatnonzero"),
         "hstack": nat(hstack, name="hstack"), "concatenate": nat(hstack, name="concatenate"),
         "vstack": nat(lambda it, xs, **k: Rows([_arr(x) for x in it.iterate(xs)]), name="vstack"),
         "errstate": nat(errstate, name="errstate"),
@@ -420,6 +446,8 @@ def _no_reduce(name):
 def np_nonzero(it, c):
     """np.nonzero(a) / np.where(cond): the positions where a is non-zero. In the generic-index fragment a position list is
     only usable as an index (x[idx], x[idx] = v): it is represented by the boolean mask itself (numpy returns a 1-tuple)."""
+    if isinstance(c, Opaque) or getattr(c, "opaque_like", False):
+        return (Opaque(f"nonzero({getattr(c, 'why', '?')})"),)
     a = _arr(c)
     if isinstance(a, Arr):
         e = a.e
@@ -738,6 +766,8 @@ def table_attr(it, t, name):
                 return Series(t, col)
             return default
         return nat(get)
+    if name == "merge":
+        return nat(lambda it, right, **k: tabletheory.merge(it, t, right, **k))
     if name == "query":
         return nat(lambda it, q, **k: Opaque(f"{t.name}.query({q!r})"))
     if name in ("itertuples", "iterrows"):
@@ -828,11 +858,13 @@ def cols_attr(it, c, name):
 
 def mat_attr(it, m, name):
     if name == "shape":
-        return (m.sym_len(it), Opaque(f"number of columns of {m.name}"))
+        n = SV(next(iter(m.segments.values())).n) if len(m.segments) == 1 else m.sym_len(it)
+        return (n, Opaque(f"number of columns of {m.name}"))
     return NotImplemented
 
 
 def install(it):
+    tabletheory.install(it)
     it.attr_hooks.append((Mat, mat_attr))
     it.attr_hooks.append((Rows, rows_attr))
     it.attr_hooks.append((Cols, cols_attr))
@@ -848,7 +880,7 @@ def install(it):
         "isnull": Native(_ew(s_isnan), name="isnull"), "isna": Native(_ew(s_isnan), name="isna"),
         "notnull": Native(_ew(lambda it, x: s_logical_not(it, s_isnan(it, x))), name="notnull"),
         "notna": Native(_ew(lambda it, x: s_logical_not(it, s_isnan(it, x))), name="notna"),
-        "Series": TypeTag("Series", None), "DataFrame": TypeTag("DataFrame", None), "Index": TypeTag("Index", None),
+        "Series": TypeTag("Series", None), "DataFrame": tabletheory.DataFrameCtor(), "Index": TypeTag("Index", None),
     }, default=lambda attr: Opaque(f"pd.{attr}"))
     it.stub_modules["pandas"] = pd_ns
     return np_ns
